@@ -13,6 +13,8 @@ import traceback
 from pathlib import Path
 
 VERIF = Path(__file__).resolve().parent.parent
+# evidence and replays go to /verif unless an evaluation of seeded changes redirects them (tools/seed_matrix.py)
+OUT = Path(os.environ.get("VERIF_OUT", VERIF))
 LEAN = VERIF / "lean"
 ALLOWED_AXIOMS = {"propext", "Classical.choice", "Quot.sound"}
 FORBIDDEN = [r"\bsorry\b", r"\badmit\b", r"^\s*axiom\s", r"native_decide", r"bv_decide",
@@ -131,13 +133,13 @@ class SuiteResult:
 
 
 def write_replay(prop: str, payload: dict) -> str:
-    d = VERIF / "replays"
-    d.mkdir(exist_ok=True)
+    d = OUT / "replays"
+    d.mkdir(exist_ok=True, parents=True)
     blob = json.dumps(payload, sort_keys=True, default=str)
     h = hashlib.sha1(blob.encode()).hexdigest()[:12]
     p = d / f"{prop}-{h}.json"
     p.write_text(json.dumps(payload, indent=1, default=str))
-    return str(p.relative_to(VERIF))
+    return str(p.relative_to(OUT))
 
 
 def main(prop: str, suites, level_rule: str, extra_trusted: list[str] | None = None, assumptions: list[str] | None = None,
@@ -150,6 +152,14 @@ def main(prop: str, suites, level_rule: str, extra_trusted: list[str] | None = N
     ap.add_argument("--skip-proof", action="store_true", help="debugging only")
     a = ap.parse_args(sys.argv[2:])
     seed = int(os.environ.get("VERIF_SEED", "0"))
+    if a.replay:
+        # every random choice derives from the seed: replaying = re-running the same tier with the recorded seed
+        rp = Path(a.replay)
+        rp = rp if rp.is_absolute() or rp.exists() else OUT / rp
+        rec = json.loads(rp.read_text())
+        seed = int(rec.get("seed", seed))
+        a.tier = rec.get("tier", a.tier)
+        print(f"replaying {rp.name}: kind={rec.get('kind')} seed={seed} tier={a.tier} signature={rec.get('signature', rec.get('suite', '-'))}")
     t0 = time.time()
     violations: list[str] = []
     known_lines: list[str] = []
@@ -179,10 +189,7 @@ def main(prop: str, suites, level_rule: str, extra_trusted: list[str] | None = N
     # 2./3. correspondence + oracle ------------------------------------------------------
     results: list[SuiteResult] = []
     mult = 1 if gate_ok else 4
-    if a.replay:
-        from replay import run_replay  # noqa: PLC0415
-        results = [run_replay(prop, a.replay)]
-    else:
+    if True:
         for s in suites:
             try:
                 results.append(s(a.tier, seed, mult))
@@ -202,19 +209,19 @@ def main(prop: str, suites, level_rule: str, extra_trusted: list[str] | None = N
             if line not in known_lines:
                 known_lines.append(line)
         else:
-            path = write_replay(prop, {"property": prop, "kind": "failing-input", "seed": seed, **f})
+            path = write_replay(prop, {"property": prop, "kind": "failing-input", "seed": seed, "tier": a.tier, **f})
             violations.append(f"VIOLATION property={prop} replay={path}")
     unknown_failures = bool(violations)
     if not unknown_failures:
         if not gate_ok and not a.skip_proof and infra_error is None:
-            path = write_replay(prop, {"property": prop, "kind": "broken-proof", "seed": seed,
+            path = write_replay(prop, {"property": prop, "kind": "broken-proof", "seed": seed, "tier": a.tier,
                                        "theorems_missing": gate["audit"]["missing"] if gate["audit"] else None,
                                        "theorems_dirty": gate["audit"]["dirty"] if gate["audit"] else None,
                                        "forbidden_tokens": gate["scan"], "built": gate["built"],
                                        "log": (gate.get("build_log_tail") or (gate["audit"] or {}).get("log", ""))[-3000:]})
             violations.append(f"VIOLATION property={prop} replay={path} no-failing-input-found")
         for name, dis in disagreements:
-            path = write_replay(prop, {"property": prop, "kind": "broken-correspondence", "suite": name, "seed": seed, "case": dis})
+            path = write_replay(prop, {"property": prop, "kind": "broken-correspondence", "suite": name, "seed": seed, "tier": a.tier, "case": dis})
             violations.append(f"VIOLATION property={prop} replay={path} no-failing-input-found")
 
     wall = time.time() - t0
@@ -241,8 +248,8 @@ def main(prop: str, suites, level_rule: str, extra_trusted: list[str] | None = N
         "wall_s": round(wall, 2),
         "violations": len(violations),
     }
-    (VERIF / "evidence").mkdir(exist_ok=True)
-    (VERIF / "evidence" / f"{prop}.json").write_text(json.dumps(ev, indent=1, default=str))
+    (OUT / "evidence").mkdir(exist_ok=True, parents=True)
+    (OUT / "evidence" / f"{prop}.json").write_text(json.dumps(ev, indent=1, default=str))
 
     for line in known_lines:
         print(line)
